@@ -213,6 +213,19 @@ def ob_dial_loop(report):
                 root = _root_source(ex, r.path, it)
                 if len(fsyms) != 1 or root != 'known':
                     return violation(ob, [ex], f'the dial loop does not run over the eligible (filtered) known peers: source={root}, filters={len(fsyms)}', 'loop-source', path_summary(r), len(res))
+                # the eligibility filter sees the whole table: nothing may truncate the traversal before it (a budget applied in front of
+                # the filter lets ineligible entries use up the window; eligible peers behind it would never be dialed)
+                chain, cur_it = [], it
+                for _ in range(6):
+                    if not (isinstance(cur_it, Agg) and cur_it.name == 'AIter'):
+                        break
+                    chain = [getattr(st, 'variant', None) for st in IT.parts(cur_it)[2]] + chain
+                    c_ = IT._coll(ex, r.path, cur_it.fields[0])
+                    cur_it = c_.get_ov('collected') if isinstance(c_, Sym) else None
+                fpos = next((i for i, st in enumerate(chain) if st in ('filter', 'filter_map')), None)
+                if fpos is not None and any(st in ('take', 'skip', 'take_while', 'skip_while', 'step_by') for st in chain[:fpos]):
+                    return violation(ob, [ex], f'the known-peer table is truncated before the eligibility filter is applied (pipeline {chain}): eligible peers behind the '
+                                     'window are never considered', 'loop-filter-after-take', path_summary(r), len(res))
                 E = fsyms[0]
                 want = z3.If(z3.ULE(E, budget), E, budget)
                 qv, m, _ = solve(r.pc + cons + [cnt != want])
@@ -468,6 +481,65 @@ def _cfg_durations(ex, q):
     return one('connection_backoff_ms', 10000), one('max_connection_backoff_ms', 60000)
 
 
+def ob_tick_not_lost(report):
+    """the connectivity check runs for every tick that is consumed: `Interval::tick` is a select! arm of the manager's loop by itself
+    (cancel safe: a tick is only consumed when the arm completes), or awaited by a helper future that cannot suspend after it"""
+    def body(ob):
+        def m_tick(ex_, p, call, k):
+            p.events.append(Event('tick-created', 'Interval::tick', ()))
+            k(p, Sym('tick_future', 'Tick'))
+        ex = e2.executor('anemo', [(r'(^|::)Interval::tick$', m_tick)], max_depth=2, fixed_bounds=True)
+        ex.explore_pending = True
+        start = find_method(ex.prog, 'ConnectionManager', 'start')
+        start_body = find_closure(ex.prog, start, [0])
+        users = []
+        for fs in ex.prog.fns.values():
+            for f in fs:
+                if not f.blocks:
+                    continue
+                for blk in f.blocks.values():
+                    if any(st and st[0] == 'call' and isinstance(st[2], str) and re.search(r'(^|::)Interval::tick$', M_strip(st[2])) for st, _ in blk):
+                        users.append(f)
+                        break
+        users = list({f.raw: f for f in users}.values())
+        if not users:
+            return ob.done([ex], 'inconclusive', 'no caller of tokio::time::Interval::tick in the crate (the periodic check is driven differently)', paths=0)
+        total = 0
+        helpers = 0
+        for f in users:
+            if f.raw.startswith(start.raw + '::{closure#'):
+                continue                    # the tick future is created in the loop body itself: a select! arm (or a plain await) of its own
+            if not re.search(r'\{closure#\d+\}$', f.raw) or not f.decl.get(f.args[0], '').startswith('Pin<&mut'):
+                return ob.done([ex], 'inconclusive', f'Interval::tick is called from {f.name}, which is not a coroutine body this obligation can run', paths=total)
+            helpers += 1
+            p, args = coroutine_start(ex, f)
+            res = ex.run(f, args, p)
+            total += len(res)
+            for r in res:
+                evs = r.events
+                ready = [i for i, e in enumerate(evs) if e.kind == 'poll' and e.args and vname(e.args[0]) == 'tick_future' and isinstance(e.ret, Agg) and e.ret.variant == 'Ready']
+                if not ready:
+                    continue
+                suspended = r.tag == 'return' and isinstance(r.ret, Agg) and r.ret.name == 'Poll' and r.ret.variant == 'Pending'
+                if suspended:
+                    later = [e for e in evs[ready[0] + 1:] if e.kind == 'poll' and isinstance(e.ret, Agg) and e.ret.variant == 'Pending']
+                    o = ob.done([ex], 'violated', f'{f.name}: after a tick of the connectivity interval was consumed the future can still suspend '
+                                f'(on {str(later[0].name)[:60] if later else "another await"}): as a select! arm of the connection manager loop it is dropped whenever another event '
+                                'arrives first, and that tick\'s connectivity check never happens', path_summary(r), key='tick-lost-after-consume', paths=total)
+                    o.replay = write_replay(PROP, 'tick_not_lost', {'function': f.name, 'path': path_summary(r)})
+                    return o
+        ob.done([ex], 'held', '', {'callers_of_tick': [f.name for f in users], 'helper_futures_run': helpers}, paths=total)
+    return guarded(report, 'tick_is_not_lost', 'every consumed tick of the connectivity interval is followed by the check: Interval::tick is polled as a select! arm of its own, or '
+                   'inside a helper future that has no suspension point after the tick (a future that sleeps after the tick loses the tick when select! drops it)',
+                   ['ConnectionManager::start', 'callers of tokio::time::Interval::tick'], {'inline_depth': 2, 'schedule': 'every poll may be Pending'}, body)
+
+
+def M_strip(t):
+    from mirsym import mir as _M
+    return _M.strip_generics(t)
+
+
+
 def check(report, tier, only=None):
     report.trusted += ['Kani 0.68/CBMC 6.11', 'z3 5.1', 'finite-map model of HashMap', 'Instant/Duration as mathematical integers in E2 (machine arithmetic in E1)']
     report.outside += ['temporal guarantees (connected within interval + jitter, behaviour over long virtual time) - need the runtime clock',
@@ -484,7 +556,7 @@ def check(report, tier, only=None):
     jobs = [j for j in jobs if not only or any(s in j.harness for s in only)]
     if jobs:
         kani.build_and_run(PROP, ['backoff'], jobs, report)
-    for f in (ob_eligibility, ob_dial_loop, ob_config_default, ob_retain):
+    for f in (ob_eligibility, ob_dial_loop, ob_config_default, ob_retain, ob_tick_not_lost):
         if only and not any(s in f.__name__ for s in only):
             continue
         f(report)
